@@ -53,6 +53,11 @@ CHECKS = {
             'Trusted: Coq kernel, translator (API table), harness (SimChild through the public spawn hook, paused tokio clock). tokio select!/mpsc/timers, process-wrap and the OS are modelled: select! as a free choice among ready branches, kill = start_kill + wait. The hand-written task model (Job/JobModel.v) is tied to task.rs / priority.rs / state.rs by the membership correspondence. No axioms.',
             'Rocq/Coq invariant proof (flag accounting) + Flag model + membership correspondence',
             "DESIGN.md section 5.4 and 6 C07"),
+    "C08": (True,
+            'Coq proofs: (job level) from every reachable state of the job task model, after the graceful quit has queued stop_with_signal(sig, grace) and delete, every eager run (any select! choices, any child behaviour, any spawn/signal/kill faults) ends the task no later than now + slack + grace, where slack is the remainder of an armed graceful stop plus the graces of queued graceful controls plus queued async-hook sleeps, and leaves no spawned child unreaped and undropped; the eager scheduler only takes transitions of the model; (worker level) for any number of jobs in any reachable states both quit manners end every job task, main finishes within the largest job bound (abort: at once), no leader survives; the CLI turns an unmapped SIGINT/SIGTERM or EOF with --stdin-quit into a graceful quit with the stop signal and stop timeout. PARTIAL: time is model time under an eager runtime (latency measured, 300 ms margin); other members of a process group are proved gone only when the group was killed. KNOWN FINDING: a group member that ignores the stop signal survives a graceful quit when the leader exits before the grace period ends (witness theorem + replay).',
+            'Trusted: Coq kernel, translator (API table), harnesses: h_job (paused clock, simulated children), h_quit (real Watchexec instance, real processes, /proc liveness), h_cli (real CLI handler in-process). Worker-level and process-group semantics are hand-written from worker.rs / process-wrap and checked by the real-process runs. No axioms.',
+            'Rocq/Coq termination-bound proof by a decreasing measure and a non-increasing potential over an eager scheduler of the job task model + real-process differential runs',
+            "DESIGN.md section 6 C08"),
     "C09": (True,
             'Coq refinement proof: every simple control arm of the detailed task model (start, stop, try-restart, signal, wait-for-end, run, hook set/unset, delete) yields the state, the effect sequence and the ticket resolution of a small reference machine written from the rustdoc, for every state, environment and fault; named corollaries (start no-op while running, restart fresh, hook once per spawn, ...). Graceful controls are covered by C06/C07. The implementation is compared with the model (membership) and, for settled simple histories, with an independent sequential reference.',
             'Trusted: Coq kernel, translator (API table), harness (SimChild through the public spawn hook, paused tokio clock). tokio select!/mpsc/timers, process-wrap and the OS are modelled: select! as a free choice among ready branches, kill = start_kill + wait. The hand-written task model (Job/JobModel.v) is tied to task.rs / priority.rs / state.rs by the membership correspondence. No axioms.',
